@@ -766,6 +766,37 @@ pub fn canon_temporal(ty: &str, text: &str) -> Option<String> {
   }
 }
 
+/// The vocabulary of FEEL: keywords, operators and delimiters, names (some of them made of keywords),
+/// literals. [feel_token_soup] strings them together with and without blanks: nearly all of the results are
+/// syntax errors, every one of them has to be answered as such by the lexer and the parser.
+const FEEL_TOKENS: [&str; 85] = [
+  "for", "in", "return", "some", "every", "satisfies", "if", "then", "else", "function", "external", "not", "and", "or", "between", "instance", "of", "true", "false", "null", "item", "partial",
+  "+", "-", "*", "/", "**", "<", "<=", ">", ">=", "=", "!=", ".", "..", ",", ":", "(", ")", "[", "]", "{", "}", "@", "?", "->", "|", "'", "\\", "#", "$",
+  "a", "b", "x", "in+x", "in-a", "ifx", "for x", "date", "date and time", "time", "duration", "years and months duration", "Order Size", "list", "context", "number", "string", "Any",
+  "1", "1.5", ".5", "10", "\"s\"", "\"\"", "@\"2021-01-01\"", "\"\\u00e9\"", "\u{e9}", "\u{1F600}", "\"\\uDC00\"", "\"\\uD800\"", "\"\\uD83D\\uDE00\"", "\"\\U0001F600\"", "\"\\", "/*",
+];
+
+pub fn feel_token_soup(seed: u64) -> String {
+  let mut rng = Rng::new(seed);
+  let n = 1 + match rng.index(4) {
+    0 => rng.index(3),
+    1 | 2 => rng.index(8),
+    _ => rng.index(16),
+  };
+  // a skeleton that is nearly right makes the parser go further than a pure soup does
+  let mut out = String::new();
+  if rng.chance(1, 3) {
+    out.push_str(*rng.pick(&["for ", "some ", "every ", "if ", "function(", "{", "[", "("]));
+  }
+  for i in 0..n {
+    if i > 0 && rng.chance(2, 3) {
+      out.push(' ');
+    }
+    out.push_str(*rng.pick(&FEEL_TOKENS));
+  }
+  out
+}
+
 const KEY_ATOMS: [&str; 12] = ["a", "b", "key", "Full Name", "x1", "total amount", "k", "Z", "n_1", "some key", "v", "w"];
 
 pub fn gen_val(rng: &mut Rng, depth: usize) -> Val {
